@@ -330,6 +330,10 @@ def mirror_line(text, out, opt_flags):
     return "src=%s pos=%s awc=%s pe=%s bad=%s fx=%s" % (hx(text), h[1], awc, pe, bad, fx_string())
 
 
+# a specification parser answers in milliseconds: a case still running after 4 s is a hang
+FAST_WATCHDOG = {"GVH_CASE_TIMEOUT_MS": "4000"}
+
+
 def run(ctx):
     ctx.gate = core.proof_gate("C11")
     for _ in ctx.gate["theorems"]:
@@ -344,9 +348,12 @@ def run(ctx):
         recs.append(oracle_case(rng, "str" if i % 3 else "opt"))
     probes = flag_probe_cases()
     recs += probes
-    outs = core.run_lines([exe], [r["line"] for r in recs])
+    outs = core.run_lines([exe], [r["line"] for r in recs], env=FAST_WATCHDOG, max_bad=12)
     nconf = ninvalid = 0
     for rec, out in zip(recs, outs):
+        if out == "SKIPPED":
+            ctx.count("skipped_after_repeated_hangs")
+            continue
         devs = judge_oracle(rec, out)
         if rec.get("generator_invalid"):
             ninvalid += 1
@@ -417,10 +424,13 @@ def run(ctx):
             srcs.append((t[:k], None))
     srcs = [(t, o) for t, o in srcs if "\x00" not in t]
     ilines = ["src=%s" % hx(t) + ("" if o is None else " opt=%s" % G.flag_str(o)) for t, o in srcs]
-    iouts = core.run_lines([exe], ilines)
+    iouts = core.run_lines([exe], ilines, env=FAST_WATCHDOG, max_bad=12)
     mlines, idx = [], []
     nskip_hdr = 0
     for k, ((t, o), out) in enumerate(zip(srcs, iouts)):
+        if out == "SKIPPED":
+            ctx.count("skipped_after_repeated_hangs")
+            continue
         ml = mirror_line(t, out, o)
         if ml is None:
             nskip_hdr += 1       # header errors / header panics belong to the header mirror (C12)
